@@ -829,8 +829,14 @@ class ExcelCompiler:
             if excel_data.address != address:
                 # if the actual data returned is not the same as the address
                 # given, then use a reference
+                # (a double quote in the sheet name is escaped the way the
+                #  formula text will be read: as a formula of a workbook, or
+                #  as the python code of a model which was read from a file)
+                quote = '\\"' if isinstance(
+                    self.excel, _CompiledImporter) else '""'
                 self.cell_map[str(address)] = self.Cell(
-                    address, formula=REF_FORMAT.format(excel_data.address),
+                    address, formula=REF_FORMAT.format(
+                        str(excel_data.address).replace('"', quote)),
                     excel=self.excel)
                 # the reference depends on the range it refers to
                 add_node_to_graph(self.cell_map[str(address)])
@@ -1366,7 +1372,8 @@ class _CompiledImporter:
             formula = cell.formula
             assert formula.startswith(REF_START)
             assert formula.endswith(REF_END)
-            ref_addr = formula[len(REF_START):-len(REF_END)]
+            ref_addr = formula[len(REF_START):-len(REF_END)].replace(
+                '\\"', '"')
             return self.get_range(AddressRange(ref_addr))
 
         elif cell.formula:
